@@ -13,7 +13,7 @@ UNIT_ALIASES = {"identifier_ic": ("identifier", ["--cfg", 'feature="ignore_case"
 
 MATRIX_FNS = ["matrix", "lemma_cell_sem", "lemma_cmp_rekey", "lemma_cell_missing", "lemma_row_eval", "lemma_row_cells", "lemma_conj_true", "lemma_row_sem", "lemma_rows_eval", "lemma_matrix_defined", "lemma_matrix_sem", "lemma_or_true", "lemma_cell_wf", "lemma_row_wf", "lemma_matrix_wf", "lemma_row_srcs", "lemma_matrix_truth", "lemma_or_arm", "lemma_or_arm_ident", "lemma_or_arm_head", "lemma_or_plain", "lemma_and_arm", "lemma_be_arm", "lemma_negate_arm", "lemma_nested_arm", "lemma_nested_truth", "lemma_nested_exact", "lemma_nested_array_truth", "lemma_nested_array_exact", "lemma_or_free_head", "lemma_match_single", "lemma_match_group", "lemma_post_refl", "lemma_mx_empty", "lemma_mx_push_row", "lemma_mx_push_rest", "lemma_row_from_lookup", "lemma_row_single"]
 
-FRAME_FNS = ["lemma_frame", "lemma_frame_group", "lemma_frame_match", "lemma_frame_leaf", "lemma_frame_cmp", "lemma_frame_row", "lemma_frame_rows", "lemma_frame_defined", "lemma_frame_elems", "lemma_agree_elem"]
+FRAME_FNS = ["lemma_frame", "lemma_frame_group", "lemma_frame_match", "lemma_frame_leaf", "lemma_frame_cmp", "lemma_frame_row", "lemma_frame_rows", "lemma_frame_rows_all", "lemma_frame_rows_of", "lemma_frame_defined", "lemma_frame_elems", "lemma_agree_elem"]
 REWRITE_FNS = ["rewrite_search", "rewrite", "lemma_rw_refl", "lemma_rw_wf"]
 BATCH_FNS = ["batch", "seqtail", "shake_needles", "single_pattern", "classify_member", "lemma_ac_one", "lemma_kinds_push", "lemma_no_merged_push", "lemma_pairs_aligned", "lemma_pairs_any", "lemma_single_quant", "lemma_ac_search", "lemma_ac_member", "lemma_ac_any", "lemma_single_kind", "lemma_exact_empty", "lemma_any_ctx_push", "lemma_any_regex_push", "lemma_any_group_push", "lemma_any_ident_take", "lemma_group_ok_push"]
 
@@ -99,7 +99,7 @@ PROPS = {
     "C16": {
         "units": {"solver": ["solve_expression", "match_all", "match_of", "solve", "Cache::find", "Passthrough::find"], "paths": ["ObjectV::find", "ObjectVS::find"], "frame": FRAME_FNS},
         "explanation": "Document::find carries the precondition dm_permits(self.model(), key); solve/solve_expression/match_all/match_of require permitted(e, ids, doc) = every key in asks(e, ids) (the field names written in the rule; for a nested block only the block's own key) is permitted, and every find call site in them is a discharged obligation: the key passed is one the rule writes. The private Cache document only permits one-character column keys below its width, and the Matrix arm of solve_expression is verified: the user's document is only asked for the column names, the synthetic one-character keys only reach the Cache. lemma_frame (induction over sem3, incl. the Matrix cache fold): two documents that answer every asked key alike get the same three-valued result - so adding, removing or altering a field no predicate addresses cannot change a verdict.",
-        "assumptions": ["lemma_frame excludes all()/of() applied directly to a Matrix (frame_ok): those forms now have a definition (rows_all_eval / rows_of_eval) but the frame induction over them is not written", "nested all()-of-blocks over an array and matrix-in-array arms of solve_expression are holes"],
+        "assumptions": ["nested all()-of-blocks over an array and matrix-in-array arms of solve_expression are holes"],
     },
     "C17": {
         "units": {"solver": ["solve_expression", "lemma_or3_reorder", "lemma_and3_truth_reorder", "lemma_reorder_same_values", "lemma_binary_commute", "lemma_of0_reorder", "lemma_group_reorder", "lemma_and3_true_iff", "lemma_and2", "lemma_or2", "search"], "matrix": MATRIX_FNS, "batch": BATCH_FNS},
